@@ -1,0 +1,26 @@
+//go:build verif
+
+package sideband
+
+// Contracts for the gvc verifier (/verif). Comment-only; never compiled into
+// a normal build.
+
+// NewDemuxer: the packet scanner reads straight from the caller's stream (no
+// intermediate buffering that could consume bytes after the sideband
+// section), and the payload limit matches the sideband type.
+//gvc:func NewDemuxer
+//gvc:  props C34
+//gvc:  theory int
+//gvc:  ensures direct: result != nil && result.r == r && result.s != nil && result.s.r == r
+//gvc:  ensures limit: result.max == ite(t == Sideband, 1000, 65520)
+//gvc:  ensures clean: len(result.pending) == 0
+//gvc:end
+
+// getPending hands the pending bytes over exactly once.
+//gvc:func (*Demuxer).getPending
+//gvc:  props C34
+//gvc:  theory int
+//gvc:  modifies d.pending
+//gvc:  ensures taken: len(d.pending) == 0
+//gvc:  ensures same: len(b) == old(len(d.pending))
+//gvc:end
